@@ -181,6 +181,12 @@ def run(tier, seed):
                         rate_tasks.append((beh, kexes, nkeys, mode, latency))
     par.pmap(work_rate, rate_tasks, stats=st)
     check_no_dos_without_option(st)
+    vcases = []
+    for arch, short, plan, rate in H.pick([t for t in tasks if not t[3] and t[0] != 'G'], seed, 20 if tier == 'quick' else 100):
+        a = F.ARCHETYPES[arch]
+        vcases.append({'label': 'C19 %s %s' % (arch, plan), 'opts': ['-n'] + a['opts'], 'make': (lambda a=a, short=short: a['make'](short)),
+                       'faults': {tuple(k): tuple(f) for k, f in plan}})
+    validated = H.validate_traces(vcases, st)
     return evidence.finish(
         PID, tier, seed, st, t0,
         rule='connection-log monitor over: (a) the C09 fault space (every archetype, %s faults, with the rate check skipped; message-level close/stall/'
@@ -190,7 +196,7 @@ def run(tier, seed):
              'requests only on probe connections and one exchange per connection, every socket closed at exit' % (
                  'message-level' if tier == 'quick' else 'all (truncation every 2nd byte)', RATE_BEHAVIOURS),
         assumptions=['the virtual clock advances by select_latency per productive select() and by the timeout otherwise', 'sockets still referenced after a gc.collect() count as left open'],
-        exhaustive=True)
+        exhaustive=True, traces_validated=validated)
 
 
 def replay(path):
